@@ -241,6 +241,7 @@ def verify_one(ex, fi, c, label=None, case=None):
         st = initial_state(ex, fi, c, cx)
         if case:
             st = bind_case(ex, st, case)
+        ex.entry_vars = dict(st.vars)           # (for the native replay of counter-models: the inputs of THIS run)
         for r in c.requires:
             st = st.assume(eval_clause(ex, st, r, scx))
         # vacuity probe: the precondition must be satisfiable (checked before the proved lemmas are added)
